@@ -192,9 +192,12 @@ class Slot:
         self.children = []             # for containers
         self.splitn = None             # n of the splitn that produced the child iterator
         self.none_default = None
+        self.content_refusal = False   # the parser answers Err for some contents of this token (e.g. empty)
+        self.some_t = None
+        self.none_t = None
 
     def __repr__(self):
-        r = '%s%s' % (self.kind, '' if self.required else '?')
+        r = '%s%s%s' % (self.kind, '' if self.required else '?', '!' if self.content_refusal else '')
         if self.literals:
             r += '{%s}' % '|'.join(l for l, _ in self.literals)
         if self.children:
@@ -253,6 +256,7 @@ def parser_schema(prog, body):
             sbi, tm, els, adt = sws[0]
             none_t = tm.get('0')
             some_t = tm.get('1', els)
+            s.some_t, s.none_t = some_t, none_t
             if none_t is not None:
                 region = {x for x in body.reachable() if body.dominates(none_t, x)}
                 s.required = any(st['k'] == 'assign' and not st['l'].get('p') and st['l']['l'] == 0 and
@@ -339,6 +343,28 @@ def parser_schema(prog, body):
                     s.kind = 'container'
                     s.splitn = splitns.get(bi2)
                     s.child_iter = bi2
+    # content-dependent refusals: Err results that are neither the None arm of a slot nor the Err arm of a
+    # numeric parse; attributed to the latest slot whose Some arm dominates them
+    err_blocks = [x for x in body.reachable() for st in body.blocks[x]['s']
+                  if st['k'] == 'assign' and not st['l'].get('p') and st['l']['l'] == 0 and st['r']['k'] == 'agg' and st['r'].get('variant') == 'Err']
+    numeric_err = set()
+    for bi2, t2 in body.calls():
+        if callee_decl(t2) in ('std::num::from_str_radix', 'std::str::parse'):
+            for (sb2, tm2, els2, _) in enum_switches(body, bi2):
+                err_t = tm2.get('1', els2)
+                for e in err_blocks:
+                    if body.dominates(err_t, e):
+                        numeric_err.add(e)
+    next_blocks = {o.bi for o in nexts}
+    for s in nexts:
+        if s.some_t is None:
+            continue
+        # blocks reachable from the Some arm before any other token is taken
+        reach = body.reach_from([s.some_t], stop=lambda x: x in next_blocks and x != s.bi, include_start=True)
+        for e in err_blocks:
+            if e in reach and e not in numeric_err and e not in next_blocks:
+                s.content_refusal = True
+
     # order and nest
     def order(slots):
         return sorted(slots, key=lambda s: (len(body.dom().get(s.bi, ())), s.bi))
@@ -365,6 +391,22 @@ def parser_schema(prog, body):
     if loose:
         reason = 'iterator(s) %s not attached to a container slot' % loose
     return top, built_variants(body), reason
+
+
+def _guard_fallthrough(body, s, e):
+    """`Some(x) if cond => …, _ => Err`: the Err block is reached from inside the Some arm (guard false)
+    although it is not dominated by it"""
+    if s.some_t is None:
+        return False
+    some_region = {x for x in body.reachable() if body.dominates(s.some_t, x)}
+    # an edge from the Some region into a block that leads to e without re-entering through the None target
+    for x in some_region:
+        for y in body.succ(x):
+            if y not in some_region:
+                r = body.reach_from([y], include_start=True)
+                if e in r and y != s.none_t or (y == s.none_t and e in r):
+                    return True
+    return False
 
 
 def payload_locals(body, dest, through_calls=False):
@@ -520,6 +562,12 @@ def check_template(prog, fmt, schema_top, alt_literal_ok=True):
                 i = len(toks)
                 continue
             mapping.append((repr(s), tok_text(tok)))
+            if s.content_refusal and not s.kind.startswith('num:'):
+                nonempty = any(p[0] == 'lit' and p[1] for p in tok) or \
+                    any(p[0] == 'arg' and p[2].replace('&', '') in INT_TYPES for p in tok)
+                if not nonempty:
+                    problems.append('slot %d (%r) is refused by the parser for some contents (e.g. an empty token) and the producer fills it '
+                                    'with an unchecked %s' % (si + 1, s, tok_text(tok)))
             if s.kind.startswith('num:'):
                 if len(tok) == 1 and tok[0][0] == 'arg':
                     isnum = placeholder_is_numeric(prog, fmt, tok[0])
